@@ -80,7 +80,8 @@ fn intersect_geo_levels<const SHAPE: u8>() {
 	let p = any_coord2();
 	let mut c = a.clone();
 	c.intersect_geo_bbox(&g);
-	let want = from_geo_model(l, &g).unwrap();
+	// stubbed under Kani (from_geo_model), the real function in native playback: the expectation follows in both
+	let want = TileBBox::from_geo(l, &g).unwrap();
 	let (la, lc) = (a.get_level_bbox(l), c.get_level_bbox(l));
 	assert_eq!(inb(lc, &p), inb(la, &p) && inb(&want, &p), "intersect_geo_bbox does not narrow this level to the box of the geographic bbox");
 	assert!(lc.level == l && valid_bbox(lc));
